@@ -558,3 +558,41 @@ Example C14_handles_example :
   (N.of_nat (length h) < tok_max)%N /\
   h_obs (h_run h) = ([], [(0, (false, false))]) /\ heap (h_run h) = [Some 1%N; None].
 Proof. vm_compute. repeat split. Qed.
+
+(* ======== round p12a: the no-source half of the refusal is absorbing (Proofs/StopNoSourceProofs.v) ========
+   C14_refused_only_if_no_source says a registration is refused only when stop was not requested and no stop_source exists.
+   That state never ends: once w_stop_possible is false after s1, it is false after every s1 ++ s2 — stop is never requested
+   (request_stop is a member of stop_source: the new local invariant QS, a thread at QLoad / QCas / QSpin holds a stop_source),
+   the source field stays 0, and no thread ever holds a stop_source again.  So a refused callback can never become invocable later:
+   refusing instead of queueing loses nothing. *)
+From Pika Require Import Proofs.StopNoSourceProofs.
+
+Theorem C14_no_source_is_absorbing : forall P s1 s2 w0 progs srcs nthr base, good_init w0 -> good_srcs nthr base w0 srcs ->
+  let c1 := st_run P s1 w0 progs srcs in
+  let c2 := st_run P (s1 ++ s2) w0 progs srcs in
+  w_stop_possible (word (fst c1)) = false ->
+  w_stop_possible (word (fst c2)) = false /\ w_stop_requested (word (fst c2)) = false /\ w_sources (word (fst c2)) = 0%N /\
+  base = 0%N /\ forall t, held (snd c2 t) = 0.
+Proof. exact no_source_is_absorbing. Qed.
+Print Assumptions C14_no_source_is_absorbing.
+
+(* the local invariant it needs, on its own: whoever is inside the CAS loop of request_stop holds a stop_source *)
+Theorem C14_request_stop_needs_source : forall P sched w0 progs srcs nthr base, good_init w0 -> good_srcs nthr base w0 srcs ->
+  let c := st_run P sched w0 progs srcs in
+  forall t, match pc (snd c t) with QLoad | QCas _ | QSpin => 1 <= hsrc (snd c t) | _ => True end.
+Proof. exact request_stop_needs_source. Qed.
+Print Assumptions C14_request_stop_needs_source.
+
+(* non-vacuity: two token owners and no source (the state of C14_refused_example): stop_possible is false initially; thread 0
+   constructs callback 0 (refused) while thread 1, which holds no source, tries request_stop and a source copy: nothing changes *)
+Example C14_no_source_example :
+  let P := {| cb_body := fun _ => []; pika_id := fun _ => None; os_id := fun t => t |} in
+  let progs := fun t => match t with 0%nat => [OpAdd 0] | 1%nat => [OpReq; OpSrcCopy] | _ => [] end in
+  let c1 := st_run P [] 2%N progs (fun _ => 0%nat) in
+  let c2 := st_run P ([] ++ [(0%nat, false); (1%nat, false); (0%nat, false); (1%nat, false); (0%nat, false); (0%nat, false)]) 2%N progs (fun _ => 0%nat) in
+  good_init 2%N /\ good_srcs 2 0 2%N (fun _ => 0%nat) /\ w_stop_possible (word (fst c1)) = false /\
+  w_stop_possible (word (fst c2)) = false /\ cb_ctor (cb (fst c2) 0) = 2 /\ cb_reg (cb (fst c2) 0) = false.
+Proof.
+  Transparent W. cbv zeta. split; [vm_compute; repeat split; reflexivity|].
+  split; [split; [intros t Ht; reflexivity|vm_compute; reflexivity]|]. vm_compute. repeat split; reflexivity.
+Qed.
